@@ -20,8 +20,23 @@ BLIND = {
  "C07-i": ("incidental", "reported by C08.clock.* only (repeats C07-d); the clock rules are now also C07.progress.clock.*"),
  "C07-j": ("incidental", "reported by C15.list.public-only only; added C07.progress.private-transaction-served-without-its-payload"),
 }
+BLIND.update({
+ "C01-k": ("missed", "added C01.ld.proof-window.expired-is-refused (ValidAt answers true only via 'no expiry' or 'not yet')"),
+ "C02-k": ("missed", "added C02.inner.nonce.all-present-flag-is-sticky (new form: loop-carried boolean flags are monotone)"),
+ "C03-k": ("missed", "added C03.dpop.jwk-header-always-set-from-the-signing-key"),
+ "C04-k": ("missed", "added C04.keys.rsa-size-is-the-modulus-bit-length"),
+ "C06-k": ("missed", "added C06.parse.kid-is-the-header-value"),
+ "C07-k": ("missed", "added C07.progress.fallback-one-page-down"),
+ "C08-k": ("missed", "added C08.digest.root-only-at-or-beyond-the-head.XOR/.IBLT"),
+ "C10-k": ("missed", "added C10.count.document-counted-once-at-version-zero"),
+ "C14-k": ("missed", "added C14.retry.no-error-class-ends-the-retries"),
+ "C15-k": ("missed", "added C15.pal.contains-only-by-did-equality"),
+ "C18-k": ("missed", "added C18.deactivated.one-definition (SIBLING: store and resolver predicates test the same members)"),
+})
 n=0
-for src in sorted(glob.glob('/tmp/seeds6/C??-[ij]')):
+SRC=sys.argv[1] if len(sys.argv)>1 else '/tmp/seeds6'
+RND='round 7' if 'seeds7' in SRC else 'round 6'
+for src in sorted(glob.glob(SRC+'/C??-[ijk]')):
     sid=os.path.basename(src)
     if not os.path.exists(src+'/patch.diff') or not os.path.exists(src+'/verify.txt'):
         print('skip',sid); continue
@@ -43,7 +58,7 @@ for src in sorted(glob.glob('/tmp/seeds6/C??-[ij]')):
     meta={"id":sid,"property":sid.split('-')[0],"what_changed":line('what'),"needs_to_manifest":line('needs'),"clause":line('clause'),
           "demo_files":[os.path.basename(d) for d in demos],"demo_goes_in":dest,
           "verified":{"how":"verify_seed.sh in a scratch git worktree of /repo HEAD (removed afterwards): git apply; go build ./...; existing tests of touched packages; demo with patch (must fail); demo without patch (must pass)","log":ver.strip().splitlines()},
-          "source":"independent sub-agent given only the property text and its own scratch worktree (round 6)"}
+          "source":("independent sub-agent given the property text, its own scratch worktree and the one-line descriptions of all earlier seeded changes of that property (to go elsewhere) (round 7)" if RND=="round 7" else "independent sub-agent given only the property text and its own scratch worktree (round 6)")}
     old={}
     if os.path.exists(dst+'/meta.json'): old=json.load(open(dst+'/meta.json'))
     for k in ('detected_by',):
